@@ -484,6 +484,7 @@ func main() {
 			cov.Scenarios = append(cov.Scenarios, map[string]interface{}{"scope": "leader-follower", "cases": cases, "sizes": sizes, "end_to_end_not_converged": notConverged})
 			cov.Samples = append(cov.Samples, map[string]interface{}{"scope": "leader-follower", "case": "n=201 every-other full sync: 3 messages of 100/100/1 regions, arrays aligned, follower equals leader"})
 			fmt.Printf("C16 leader-follower cases=%d not_converged=%d\n", cases, notConverged)
+			orderScope(tier, rep, cov)
 		},
 		Rule: "history buffer: BFS over Record / Record x100 / ResetWithIndex / restart sequences on capacities 1,2,3,5 (thorough also 150) with RecordsFrom evaluated for every index in [first-2, next+2] after every step; leader/follower: every region set size around the batch boundaries x 4 leader patterns x full and incremental start",
 		Assumptions: []string{
